@@ -191,6 +191,9 @@ def run_unit(harnesses, tier):
             try:
                 pp = subprocess.run(kani_cmd([h], playback=True), cwd=KDIR, capture_output=True, text=True, timeout=1200, env=env)
                 v['playback'] = _parse_playback(pp.stdout + pp.stderr)
+                if v['playback']:
+                    rep, rout = native_replay(h, v['playback']['values'])
+                    v['playback']['reproduced_on_real_code'] = rep; v['playback']['replay_output'] = rout
             except Exception as e:
                 v['playback'] = None
     res['solver_s'] = sum(v['time'] for v in res['harnesses'].values())
@@ -199,12 +202,30 @@ def run_unit(harnesses, tier):
 
 
 def _parse_playback(out):
-    m = re.search(r'```\s*(.*?)```', out, re.S)
-    body = m.group(1) if m else ''
-    vals = []
-    for mm in re.finditer(r'//\s*(-?\d+)(?:[a-z0-9]*)\s*\n\s*vec!\[([^\]]*)\]', body):
-        vals.append(int(mm.group(1)))
-    return {'test': body.strip()[:4000], 'values': vals}
+    """Pick the generated playback test of a failed assertion (not of a cover property) and read its values."""
+    blocks = re.findall(r'```\s*(.*?)```', out, re.S)
+    best = None
+    for b in blocks:
+        m = re.search(r'Check for `(\w+)`', b)
+        kind = m.group(1) if m else ''
+        vals = [int(x) for x in re.findall(r'//\s*(-?\d+)\s*\n\s*vec!\[', b)]
+        if not vals: continue
+        if kind != 'cover':
+            best = {'test': b.strip()[:4000], 'values': vals, 'check': kind}; break
+        if best is None: best = {'test': b.strip()[:4000], 'values': vals, 'check': kind}
+    return best
+
+
+def native_replay(harness, values):
+    """Run the harness body natively on the real code with concrete inputs. Returns (reproduced, output)."""
+    env = dict(os.environ, CARGO_NET_OFFLINE='true')
+    b = subprocess.run(['cargo', 'build', '--offline', '--bin', 'cgt-verif-replay'], cwd=KDIR, capture_output=True, text=True, env=env, timeout=1800)
+    if b.returncode != 0: return None, 'replay binary did not build: ' + b.stderr[-800:]
+    exe = os.path.join(ROOT, 'build', 'kani-target', 'debug', 'cgt-verif-replay')
+    r = subprocess.run([exe, harness] + [str(v) for v in values], capture_output=True, text=True, timeout=120)
+    out = (r.stdout + r.stderr)[-1500:]
+    if 'ASSUMPTION-VIOLATED' in out: return None, 'inputs violate the harness assumptions: ' + out
+    return (r.returncode != 0), out
 
 
 def merge(pid, kr, dec, known):
@@ -226,7 +247,10 @@ def merge(pid, kr, dec, known):
                 ob['diagnostic'] = '\n'.join(v['failed_checks']) + '\n' + v['text'][-1500:]
                 pb = v.get('playback')
                 if pb and pb.get('values'):
-                    ob['counterexample'] = {'harness': h, 'values': pb['values'], 'playback_test': pb['test']}
+                    ob['counterexample'] = {'harness': h, 'values': pb['values'], 'playback_test': pb['test'],
+                                            'reproduced_on_real_code': pb.get('reproduced_on_real_code'), 'replay_output': pb.get('replay_output')}
+                    if pb.get('reproduced_on_real_code') is False:
+                        ob['status'] = 'undecided'; ob['why'] = 'Kani counterexample did not reproduce on the real code natively'
                 ob['failed_in'] = 'kani harness ' + h
             else:
                 ob['status'] = 'undecided'; ob['why'] = 'kani gave no verdict'
@@ -259,9 +283,16 @@ def setup():
 
 
 def replay(j):
-    """Re-run a Kani counterexample against the real code through the replay harness."""
+    """Re-run a Kani counterexample against the real code (native build of the same harness body)."""
     ce = j['counterexample']
-    print('counterexample values (kani::any order):', ce['values'])
-    print(ce['playback_test'][:2000])
-    from . import replay as R
-    return R.run_kani_witness(j)
+    try:
+        extract(); _prepare()
+    except Unsupported as e:
+        print('UNDECIDED: extraction failed:', e); return 2
+    rep, out = native_replay(ce['harness'], ce['values'])
+    print('harness', ce['harness'], 'inputs (kani::any order):', ce['values'])
+    print(out)
+    if rep is None: print('UNDECIDED: replay could not run'); return 2
+    if rep:
+        print(f"VIOLATION property={j['property']} replay=<this file> (assertion fails on the real code with these inputs)"); return 1
+    print('not reproduced on the current tree'); return 0
